@@ -198,6 +198,7 @@ PROPS["C01"] = dict(
         dict(name="pairs", pkg="c01", run="TestPairs", shards=dict(quick=2, thorough=4)),
         dict(name="sets", pkg="c01", run="TestSets", checks=dict(quick=8000, thorough=300000), shards=dict(quick=8, thorough=16), timeout=dict(quick=300, thorough=1800)),
         dict(name="histories", pkg="c01", run="TestHistories", checks=dict(quick=20000, thorough=400000), shards=dict(quick=4, thorough=16), timeout=dict(quick=300, thorough=1800)),
+        dict(name="e2e", pkg="c01", run="TestE2E", checks=dict(quick=320, thorough=6000), shards=16, timeout=dict(quick=400, thorough=2400), shrinktime="90s"),
     ],
 )
 
@@ -385,5 +386,51 @@ PROPS["C03"] = dict(
         dict(name="regress", pkg="c03", run="TestRegress", timeout=300),
         dict(name="ticker", pkg="c03", run="TestTickerWiring", timeout=300),
         dict(name="random", pkg="c03", run="TestRandom", checks=dict(quick=320, thorough=6000), shards=16, timeout=dict(quick=400, thorough=2400), shrinktime="90s"),
+    ],
+)
+
+PROPS["C07"] = dict(
+    level="exploration",
+    manifest=dict(
+        text=("(1) TopicsState: exhaustive histories up to length 3/4 over {set p1, set p2, clear} x {a, a/b, a/b/c, b} and random histories of 1-14 "
+              "steps over 10 topics with shared prefixes and empty levels; after EVERY step all 186 filters of up to 3 levels over {a,b,c,empty,+,#} "
+              "are queried on the writing node and on a replica fed by its broadcasts, against a map model and the reference matcher. (2) End to end "
+              "on 1-2 in-process nodes: retained publishes (QoS 0-2), clears, plain publishes, subscribe / re-subscribe / unsubscribe by new and "
+              "existing clients; every client's PUBLISH multiset - topic, payload AND retain flag - must equal the model after every step (retained "
+              "copy flagged, exactly one per matching topic per SUBSCRIBE; live copy unflagged; nothing after a clear; other topics untouched)."),
+        note=_L3_NOTE,
+        technique="model-based property testing (exhaustive small scope + rapid) at state level, stateful property-based testing end to end",
+    ),
+    rule=("state cases: Set/Delete histories; e2e cases: node/client counts + step list. Non-trivial: state = a present topic is cleared or two "
+          "present topics are prefix-related; e2e = a subscribe happens after a clear, or while prefix-related topics are retained. Distinct = distinct case."),
+    assumptions=["one SUBSCRIBE replays the retained messages once per filter it carries", "gossip delivered before subscribing on another node"],
+    runs=[
+        dict(name="regress", pkg="c07", run="TestRegress", timeout=300),
+        dict(name="stateenum", pkg="c07", run="TestStateEnum", shards=dict(quick=4, thorough=16), timeout=dict(quick=300, thorough=1800)),
+        dict(name="state", pkg="c07", run="TestState", checks=dict(quick=4000, thorough=100000), shards=dict(quick=8, thorough=16), timeout=dict(quick=300, thorough=1800)),
+        dict(name="e2e", pkg="c07", run="TestE2E", checks=dict(quick=320, thorough=6000), shards=16, timeout=dict(quick=400, thorough=2400), shrinktime="90s"),
+    ],
+)
+
+PROPS["C16"] = dict(
+    level="exploration",
+    manifest=dict(
+        text=("(1) auth.FileHandler on generated credential files (0-6 entries, 2- and 3-field lines mixed, any order, empty values) and "
+              "auth.StaticHandler: for every table every present pair, swapped fields, right user / wrong password, wrong user / right password, "
+              "empty values and extra random candidates are tried; accepted <=> (username, sha256(password)) is a row, mount point = third field or "
+              "the default one. (2) The store wired into a running in-process node: CONNECT attempts with a will; accepted => CONNACK 0 and a session "
+              "record in that entry's mount point; refused => CONNACK 4/5, and although the refused client then sends SUBSCRIBE and a retained "
+              "PUBLISH and drops the connection, no session record, subscription, registry entry, retained message, publish or will appears."),
+        note=_L3_NOTE + " The file's second column is the lowercase hex SHA-256 of the password; usernames are distinct within a file.",
+        technique="property-based testing against a table oracle (stores) and stateful testing of the CONNECT path",
+    ),
+    rule=("store cases: table + candidates (all systematic candidates of every entry are tried, counter candidates_checked); e2e cases: store + "
+          "attempt list. Non-trivial: store = table with >= 3 entries; e2e = at least one accepted and one refused attempt. Distinct = distinct case."),
+    assumptions=["usernames and passwords from [a-z0-9_]{0,6} (no csv quoting)", "distinct usernames per file"],
+    runs=[
+        dict(name="regress", pkg="c16", run="TestRegress", timeout=300),
+        dict(name="file", pkg="c16", run="TestFile", checks=dict(quick=20000, thorough=400000), shards=dict(quick=8, thorough=16), timeout=dict(quick=300, thorough=1800)),
+        dict(name="static", pkg="c16", run="TestStatic", checks=dict(quick=4000, thorough=100000), shards=dict(quick=2, thorough=8), timeout=dict(quick=300, thorough=1800)),
+        dict(name="e2e", pkg="c16", run="TestE2E", checks=dict(quick=320, thorough=6000), shards=16, timeout=dict(quick=400, thorough=2400), shrinktime="90s"),
     ],
 )
